@@ -108,7 +108,7 @@ def rule_rt4(A: Analysis, rep):
         t = "%s.task" % F.lt
         want = {"identifier": t + ".identifier", "task": t, "run": t + ".raw_run", "args": t + ".args", "options": t + ".options",
                 "working_path": t + ".get_working_path(self._ctx)", "deps_output_paths": t + ".get_deps_output_paths(self._ctx)"}
-        got = {k.arg: norm(k.value) for k in call.keywords}
+        got = {k: norm(v) for k, v in A.kwmap(call).items()}
         diff = {k: got.get(k) for k, v in want.items() if got.get(k) != v}
         op = A.kw(call, "output_path")
         opv = A.xtext(op, F.fi) if op is not None else None
